@@ -10,9 +10,13 @@
  *   M <ntasks> <tid> <tid> ...  micro run: the grants in this order, then every task still inside a call is drained
  *                               (task order), then the tasks are told to return
  *   P <op> <op> ...             life-cycle script: s<k>:<argsz>  i<k>  g<k>:<size>  w<k>:<seed>  f<k>
+ *   X <n> <rounds> <wrapround>  free-running race of n first calls per round (prints "X n rounds dups reserved unstable late")
  *   Q
  * stdout: "H <sheps> <workers> <AC> <TL>", then per grant "g <tid> <I|R> <amount|value> <draws> <fld> <ctr>", per op one line
  * (see below), "E" after each run. */
+#ifdef HAVE_CONFIG_H
+# include "config.h"       /* before any internal header, exactly as qthread.c does: the lock types depend on it */
+#endif
 #include "qthread/qthread.h"
 #include "qt_alloc.h"
 #include "qt_mpool.h"
@@ -220,6 +224,7 @@ static void run_script(char *p)
             } else rc = qthread_spawn(reuse_ptr, (void *)(intptr_t)k, 0, &r->ret, 0, NULL, NO_SHEPHERD, 0);
             if (rc != QTHREAD_SUCCESS) { printf("SPAWNFAIL %d\n", rc); fflush(stdout); _exit(4); }
             rstep_wait(k, 0);
+            wl(); for (int i = 0; i < 256; i++) if (dfreed[i] == (void *)r->self) dfreed[i] = NULL; wu();   /* releases of earlier owners */
             printf("s %d %d %ld %ld %ld %ld %ld\n", k, desc_ordinal(r->self), r->v[0], r->v[1], r->v[2], r->v[3], r->v[4]);
             continue;
         }
@@ -256,10 +261,60 @@ static void run_script(char *p)
     printf("E\n"); fflush(stdout);
 }
 
+/* ------------------------------------------------------------------ free-running race on the FIRST qthread_id() call
+ * n tasks, one per shepherd, meet at a spinning barrier (they occupy their workers), then all call qthread_id() at once; they
+ * stay alive (second barrier) while their ids are compared.  Not a baton run: used as the search for a failing input. */
+#define MAXX 64
+static volatile long x_arrived, x_have;
+static volatile int  x_n, x_late;
+static unsigned      x_id1[MAXX], x_id2[MAXX], x_fld[MAXX];
+static aligned_t     x_ret[MAXX];
+static int spin_until(volatile long *v, long want)
+{
+    for (long i = 0; *v < want; i++) { if (i > 2000000) { x_late = 1; return 0; } if ((i & 1023) == 1023) sched_yield(); }
+    return 1;
+}
+static aligned_t x_body(void *arg)
+{
+    int k = (int)(intptr_t)arg;
+    __sync_fetch_and_add(&x_arrived, 1);
+    spin_until(&x_arrived, x_n);
+    x_id1[k] = qthread_id();
+    __sync_fetch_and_add(&x_have, 1);
+    spin_until(&x_have, x_n);
+    x_id2[k] = qthread_id();
+    x_fld[k] = qthread_internal_self()->thread_id;
+    return 0;
+}
+static void run_race(int n, int rounds, int wrap_round)
+{
+    long dups = 0, reserved = 0, unstable = 0, late = 0;
+    if (n > MAXX) n = MAXX;
+    alarm(getenv("C09_ALARM") ? atoi(getenv("C09_ALARM")) : 300);
+    unsigned nsheps = qthread_num_shepherds();
+    for (int r = 0; r < rounds; r++) {
+        x_arrived = 0; x_have = 0; x_n = n; x_late = 0;
+        if (r == wrap_round) qlib->max_thread_id = (aligned_t)0xFFFFFFFFUL - (aligned_t)(n / 2);
+        MACHINE_FENCE;
+        for (long k = 0; k < n; k++) qthread_fork_to(x_body, (void *)(intptr_t)k, &x_ret[k], (qthread_shepherd_id_t)(k % nsheps));
+        for (int k = 0; k < n; k++) qthread_readFF(NULL, &x_ret[k]);
+        late += x_late;
+        for (int k = 0; k < n; k++) {
+            if (x_id1[k] == 0 || x_id1[k] == UINT_MAX) reserved++;
+            if (x_id2[k] != x_id1[k] || x_fld[k] != x_id1[k]) unstable++;
+            for (int j = 0; j < k; j++) if (x_id1[j] == x_id1[k]) dups++;
+        }
+    }
+    alarm(0);
+    printf("X %d %d %ld %ld %ld %ld\nE\n", n, rounds, dups, reserved, unstable, late);
+    fflush(stdout);
+}
+
 int main(void)
 {
     static char line[1 << 16];
     signal(SIGALRM, on_alarm);
+    setvbuf(stdout, NULL, _IOLBF, 0);
     if (qthread_initialize() != 0) { printf("INITFAIL\n"); return 2; }
     printf("H %u %u %u %u\n", (unsigned)qthread_num_shepherds(), (unsigned)qthread_num_workers(),
            (unsigned)qlib->qthread_argcopy_size, (unsigned)qlib->qthread_tasklocal_size);
@@ -273,6 +328,7 @@ int main(void)
             if (n > MAXT) n = MAXT;
             run_micro(n, sched, ns);
         } else if (line[0] == 'P') run_script(line + 1);
+        else if (line[0] == 'X') { int n = 4, rounds = 1, wr = -1; sscanf(line + 1, "%d %d %d", &n, &rounds, &wr); run_race(n, rounds, wr); }
         else if (line[0] == 'Q') break;
     }
     fflush(stdout);
